@@ -182,6 +182,9 @@ def strata():
                      gen_cfg.model_and_spec(force=['dict_names', 'many_ports'], want_mixed=True),
                      gen_cfg.model_and_spec(force=['dict_names', 'deep_ns'], want_mc=True),
                      gen_cfg.model_and_spec(force=['big'], want_mc=True, want_mixed=True),
+                     # the same relative type name denoting different externs from two interfaces,
+                     # every port multi-threaded
+                     gen_cfg.model_and_spec(force=['mirror_ns', 'many_ports'], prov_sem='MTS', want_mixed='M'),
                      gen_cfg.model_and_spec(force=['one_way_itf', 'many_ports'], prov_sem='MTS',
                                             want_mixed='MS'),
                      # inout formals on out events (accepted by the parser): compile-only oracle
